@@ -2,6 +2,7 @@
   C07 — Generated ISO contains exactly the source tree, byte for byte.
 -/
 import Ps3.Proof.Viso
+import Ps3.Proof.BuildWF
 namespace Ps3.Props.C07
 open Ps3 Ps3.Viso Ps3.Spec.Viso Ps3.Proof.Viso Ps3.Proof.Slice
 
@@ -48,6 +49,13 @@ theorem extent_content (img : Image) (cf : Nat → Content) (h : WF img cf) (f :
 theorem read_extent (img : Image) (cf : Nat → Content) (h : WF img cf) (f : FileExt) (hf : f ∈ img.files) :
     img.read cf (f.lba * sectorSize) f.size = (cf f.ino).all := by
   rw [read_eq_slice img cf h]; exact (extent_content img cf h f hf).1
+
+/-- Unconditionally, for every tree: each non-empty file of the image `build` produces is stored,
+    byte for byte and zero-padded, in the extent its record names. -/
+theorem built_extent_content (w : World) (root : Path) (ps3 : Bool) (clk : Clock) (filler : Bytes) (img : Image)
+    (h : build w root ps3 clk filler = some img) (f : FileExt) (hf : f ∈ img.files) :
+    img.read (Proof.BuildWF.cfOf w) (f.lba * sectorSize) f.size = (Proof.BuildWF.cfOf w f.ino).all :=
+  read_extent img _ (Proof.BuildWF.build_wf w root ps3 clk filler img h) f hf
 
 /-- A file that fits 32 bits gets one record carrying its exact size (0 for an empty file). -/
 theorem single_extent (f : FileRef) (joliet : Bool) (base : Nat) (h : f.size ≤ maxPart) :
